@@ -7,7 +7,8 @@ from .. import common, worldgen
 
 # (profile, overrides, share) — shares are scaled to the tier's world count
 BASE_MIX = [
-    ("greedy", {}, 0.45),
+    ("greedy", {}, 0.33),
+    ("greedy", {"zero_runtime": True, "specific_ids": 0.4, "multi_instance": 0.6}, 0.12),
     ("greedy", {"flags": {"enforce_deadlines": True}, "deadline_variances": [(0, 0), (0, 20), (10, 50)],
                 "scheduler_choices": ["EDF"]}, 0.10),
     ("greedy", {"max_pools": 1, "max_workers": 2, "max_q": 2, "frequencies": [-1, 1, 3], "delays": [0, 1, 3]}, 0.15),
